@@ -262,6 +262,8 @@ NOTES = {
     ("src/common/types.rs", 348, "1"): "dead code (see the row above for the same line)",
     ("src/common/types.rs", 347, "false && (has_one && Some(char_idx) != last_sep.map(|v| v + 2) && char_idx != 1)"): "dead condition (see src/common/types.rs:348)",
     ("src/common/types.rs", 357, "false && (has_one)"): "equivalent: with has_one set the '#' is at last_sep+2, so the following `else if Some(char_idx) == last_sep+1 || char_idx == 0` is false and the final `else` returns invalid as well",
+    ("src/common/types.rs", 371, "false && (has_one)"): "equivalent: a second '+' directly after a level-starting '+' sits at last_sep+2, so the following `else if .. last_sep+1 || char_idx == 0` is false and the final `else` returns invalid as well",
+    ("src/common/types.rs", 392, "1"): "equivalent: shared_group_sep is either 0 or 6 (debug_assert in the function; proved invariant tf_inv)",
     ("src/common/types.rs", 348, "false"): "dead code: has_one is only set by a '+' that starts a level and every character other than '/' after it returns earlier, so the guarded condition is never true (Verus proves the mutant as well)",
 }
 
@@ -272,7 +274,7 @@ def table():
     for r in rs:
         cnt[r["status"]] = cnt.get(r["status"], 0) + 1
     out = ["# Mutation self-test (tools/mutate.py)", "",
-           "Token-level mutants of /repo/src (relational / arithmetic / logical / bit operator swaps, integer literals +-1, true<->false; round 3: `if C` -> `if !(C)`, `if false && (C)`, `if true || (C)`), sampled per file (seeds 1-3).",
+           "Token-level mutants of /repo/src (relational / arithmetic / logical / bit operator swaps, integer literals +-1, true<->false; round 3: `if C` -> `if !(C)`, `if false && (C)`, `if true || (C)`), sampled per file (seeds 1-3; seed 4: every candidate in poll.rs, types.rs and the two packet.rs files).",
            "Only mutants that build and pass the pinned 73-test suite (`survivors`) are run against the checks that cover their file.", "",
            "| outcome | count |", "|---|---|"]
     for k in sorted(cnt):
